@@ -140,6 +140,8 @@ structure ImplSummary where
   orders (reversed; odd positions first) -/
   rev : String := ""
   alt : String := ""
+  /-- what the call modified in its input sample, as found by the harness: none / values / thresholds -/
+  imod : String := "none"
 
 def okIf (b : Bool) (reason : String) : String := if b then "ok" else reason
 
@@ -255,6 +257,9 @@ def judgeReorder (i : ImplSummary) : String :=
   let t := ":".intercalate ([i.center, i.lo, i.hi].map fun b => F64.toHex (F64.canonNaN b))
   okIf (i.rev == t && i.alt == t) "depends-on-arrival-order"
 
+/-- summaries and comparisons must not modify the samples they are given -/
+def judgeInputs (imod : String) : String := okIf (imod == "none" || imod == "") ("input-modified:" ++ imod)
+
 def judgeExact (vals : List F64.Bits) (i : ImplSummary) : String :=
   let xs := vals.map toRat
   let centre := match modeOf xs, ev i.center with
@@ -270,7 +275,7 @@ def judgeExact (vals : List F64.Bits) (i : ImplSummary) : String :=
     | _, _ => false
   let warn := okIf (i.warn == differ) (if differ then "missing-warning" else "spurious-warning")
   showVerdicts [("centre", centre), ("ends", ends), ("bracket", bracket), ("conf", conf), ("warn", warn),
-                ("pct", judgePct i.center i.lo i.hi i.pct), ("reorder", judgeReorder i)]
+                ("pct", judgePct i.center i.lo i.hi i.pct), ("reorder", judgeReorder i), ("inputs", judgeInputs i.imod)]
 
 def judgeNothing (vals : List F64.Bits) (conf : F64.Bits) (qlo qhi : Nat) (needTab : List (Nat × Nat))
     (i : ImplSummary) : String :=
@@ -325,7 +330,7 @@ def judgeNothing (vals : List F64.Bits) (conf : F64.Bits) (qlo qhi : Nat) (needT
   -- smaller size and infinite at the size at hand, QuantileCI being non-monotone at n = 30 → 31)
   let have_ := if i.warnText.startsWith "need:ge:" then okIf (n < i.wn) "already-has-the-named-size" else "ok"
   showVerdicts [("centre", centre), ("ends", ends), ("bracket", bracket), ("conf", confV), ("warn", warn),
-                ("pct", judgePct i.center i.lo i.hi i.pct), ("reorder", judgeReorder i), ("needn", needn), ("have", have_)]
+                ("pct", judgePct i.center i.lo i.hi i.pct), ("reorder", judgeReorder i), ("inputs", judgeInputs i.imod), ("needn", needn), ("have", have_)]
     ++ kfTag (classX1 xs) "X1"
 
 /-! ### Student-t coverage of a symmetric interval (integer degrees of freedom), evaluated independently
@@ -445,7 +450,7 @@ def judgeNormal (vals : List F64.Bits) (conf : F64.Bits) (i : ImplSummary) : Str
         else "ok"
     | _, _, _ => "ok"
   showVerdicts [("centre", centre), ("ends", ends), ("bracket", bracket), ("conf", confV), ("warn", warn),
-                ("pct", judgePct i.center i.lo i.hi i.pct), ("reorder", judgeReorder i), ("tcov", tcov)]
+                ("pct", judgePct i.center i.lo i.hi i.pct), ("reorder", judgeReorder i), ("inputs", judgeInputs i.imod), ("tcov", tcov)]
     ++ kfTag (classX2 xs) "X2"
 
 /-! ### comparisons -/
@@ -461,6 +466,10 @@ structure ImplComparison where
   delta : String
   str : String
   warn : String      -- canonical warning tag of the harness ("-", "need:ge:4", "err:…")
+  /-- threshold the SECOND sample was created with (may differ from the first's), and what the calls
+  modified in the two samples (none / values / thresholds) -/
+  alpha2 : F64.Bits := F64.nan
+  imod : String := "none"
 
 /-- "a difference is shown exactly when p does not exceed the threshold"; then the documented
 cases '0.00%' (equal centres), '?' (old centre 0), else (new/old − 1)·100 with two decimals -/
@@ -556,10 +565,16 @@ def judgeCompare (a : String) (v1 v2 : List F64.Bits) (alpha old new : F64.Bits)
     if i.warn.startsWith "err" then
       (match ev i.p with | .fin q => okIf (q == 1) "failed-test-claims-significance" | _ => "not-finite")
     else "ok"
-  let alphaV := if a == "exact" then "ok" else okIf (closeOrEqual true i.alpha alpha) "threshold-not-carried"
+  -- "the significance threshold the samples were created with": unambiguous when both samples carry
+  -- the same threshold; when they differ the result must carry one of the two (the code takes the
+  -- first sample's — `alpha_carried` — which the correspondence pins)
+  let alphaV :=
+    if a == "exact" then "ok"
+    else if F64.isNaN i.alpha2 || closeOrEqual true i.alpha2 alpha then okIf (closeOrEqual true i.alpha alpha) "threshold-not-carried"
+    else okIf (closeOrEqual true i.alpha alpha || closeOrEqual true i.alpha i.alpha2) "threshold-not-carried"
   let (shown, delta) := judgeDelta i.p i.alpha old new i.delta
   showVerdicts [("n", nOK), ("prange", prange), ("sym", sym), ("shuf", shuf), ("scale", scale), ("exact", exact),
-                ("alpha", alphaV), ("warn", warnV), ("errp", errp), ("shown", shown), ("delta", delta), ("str", judgeStr i.p i.n1 i.n2 i.str)]
+                ("alpha", alphaV), ("warn", warnV), ("errp", errp), ("shown", shown), ("delta", delta), ("str", judgeStr i.p i.n1 i.n2 i.str), ("inputs", judgeInputs i.imod)]
     ++ kfTag (a == "normal" && (classX3 (v1.map toRat) (v2.map toRat) || classX3 (v1.map toRat) (v2.map toRat) k)) "X3"
 
 /-- a case on which the real code panicked: the property demands a result -/
